@@ -444,6 +444,76 @@ func edits(full bool) (states, transitions int, cands []candidate) {
 		}
 		wg.Wait()
 	}
+	// 1b. a save that arrives WHILE the previous one is being handled: the handler is writing the generated code of
+	// version A when the file is saved again as version B (later modification time); the event for B follows. It must be
+	// handled as B after A: same decision as in step 1, and the text file must be B's.
+	midSaves := 0
+	{
+		var mu sync.Mutex
+		var wg sync.WaitGroup
+		textOf := map[params]string{} // text file content of a version handled alone, per worker directory it is the same
+		for g := 0; g < workers; g++ {
+			g := g
+			wg.Add(1)
+			go func() {
+				defer wg.Done()
+				d := wdir(g)
+				file := filepath.Join(d, "t.templ")
+				txt := templruntime.GetDevModeTextFileName(file)
+				alone := func(p params) string {
+					mu.Lock()
+					t, ok := textOf[p]
+					mu.Unlock()
+					if ok {
+						return t
+					}
+					s := newSession(d)
+					step(s, p)
+					b, _ := os.ReadFile(txt)
+					mu.Lock()
+					textOf[p] = string(b)
+					mu.Unlock()
+					return string(b)
+				}
+				for i := g; i < len(all); i += workers {
+					a := all[i]
+					for _, b := range neighbours(a) {
+						wantTxt := alone(b)
+						var pending *params
+						h := generatecmd.NewFSEventHandler(quiet, d, true, nil, false, true, func(string, []byte) error {
+							if pending != nil {
+								clockMu.Lock()
+								writeAt(file, pending.src()) // saved again while A's output is being written
+								clockMu.Unlock()
+								pending = nil
+							}
+							return nil
+						}, false)
+						s := &session{h, file}
+						bb := b
+						pending = &bb
+						step(s, a)
+						if pending != nil {
+							continue // the hook was not reached (nothing was written for A)
+						}
+						res, err := s.h.HandleEvent(context.Background(), fsnotify.Event{Name: file, Op: fsnotify.Write})
+						transitionsA.Add(1)
+						got, _ := os.ReadFile(txt)
+						mu.Lock()
+						midSaves++
+						if err != nil {
+							run.Violation("save-during-handling", fmt.Sprintf("%s saved while %s was being handled: the event for it failed: %v", b, a, err), map[string]any{"first": a.src(), "second": b.src()})
+						} else if res.GoUpdated != dec[[2]params{a, b}] || string(got) != wantTxt {
+							run.Violation("save-during-handling", fmt.Sprintf("%s saved while %s was being handled: the event for the second save reported GoUpdated=%v TextUpdated=%v (handled after the first alone: GoUpdated=%v) and the text file %s the second version's", b, a, res.GoUpdated, res.TextUpdated, dec[[2]params{a, b}], map[bool]string{true: "is", false: "is NOT"}[string(got) == wantTxt]), map[string]any{"first": a.src(), "second": b.src()})
+						}
+						mu.Unlock()
+					}
+				}
+			}()
+		}
+		wg.Wait()
+		run.Cov["saves_during_handling"] = midSaves
+	}
 	// 2. real sessions that between them contain every three consecutive versions (a, b, c) of the edit graph:
 	// each worker walks on from (b, c) to an unvisited (b, c, d) for as long as it can, so sessions are long edit
 	// histories. In every session the version the running program was last compiled from is tracked with the
